@@ -1238,7 +1238,7 @@ func mainC17(e *env) {
 	fmt.Printf("  bounded systematic search: %d two-task cases, each under every single-preemption schedule (cap %d): %d schedules in %.1fs\n", pbC, pbCap, pbS, time.Since(t2).Seconds())
 	pb2Cases, pb2Cap := 16, 300
 	if e.tier == "thorough" {
-		pb2Cases, pb2Cap = 160, 8000
+		pb2Cases, pb2Cap = 96, 1500
 	}
 	t3 := time.Now()
 	pb2C, pb2S := x.pb2(a, pb2Cases, pb2Cap)
